@@ -40,15 +40,21 @@ Fixpoint take_plain (ts : list token) : list token * list token :=
   | t :: r => if plain t then let '(p, rest) := take_plain r in (t :: p, rest) else ([], ts)
   | [] => ([], [])
   end.
+(* tokens up to the first "}" *)
+Fixpoint take_until_rbrace (ts : list token) : list token * list token :=
+  match ts with
+  | t :: r => if is_rbrace t then ([], ts) else let '(c, rest) := take_until_rbrace r in (t :: c, rest)
+  | [] => ([], [])
+  end.
 Definition init_len (ts : list token) : option nat :=
   let '(pre, r1) := take_plain ts in
   match r1 with
   | o :: r2 =>
       if is_lbrace o then
-        let '(flat, r3) := take_plain r2 in
+        let '(flat, r3) := take_until_rbrace r2 in
         match r3 with
         | c :: r4 =>
-            if is_rbrace c then
+            if is_rbrace c && inner_b flat then
               match stmt_len r4 O with
               | Some n => if inner_b (firstn (n - 1) r4) then Some (length pre + 1 + length flat + 1 + n)%nat else None
               | None => None
@@ -267,7 +273,7 @@ Fixpoint parse_items (fuel : nat) (l : language) (off : nat) (ts : list token) :
       | t :: after_t =>
           if is_rbrace t then Some ([], ts)
           else
-          (* a bare block *)
+          (* a bare block, or a label *)
           match (if is_lbrace t then
                    match parse_items f l (off + 1) after_t with
                    | Some (ds1, c :: more) =>
@@ -278,6 +284,12 @@ Fixpoint parse_items (fuel : nat) (l : language) (off : nat) (ts : list token) :
                          end
                        else None
                    | _ => None
+                   end
+                 else if is_keyword t then
+                   (* a label `keyword :` *)
+                   match after_t with
+                   | colon :: r => if is_operator colon s_colon then parse_items f l (off + 2) r else None
+                   | [] => None
                    end
                  else None) with
           | Some x => Some x
